@@ -40,11 +40,23 @@ VAC_TAGS = tuple("vac:" + t for t in (
     "gdef-absent", "gdef-noclassdef", "attached-mark-not-gdef-mark", "attached-mark-gdef-base",
     "reading-attached-is-mark-matters", "reading-markmark-class-test-matters",
     "kern-cross-stream-pair-hit", "kern-vertical-pair-hit", "kern-cross-and-with-stream-hit",
-    "reading-kern-cross-shift-matters"))
+    "reading-kern-cross-shift-matters",
+    # combinations of the mechanisms in one run (MC_Gpos!CombTags)
+    "comb-mark-on-glyph-moved-across-rtl-flag", "comb-mark-on-glyph-moved-across-flag-clear",
+    "comb-mark-on-glyph-advance-fitted-ltr", "comb-mark-on-glyph-advance-fitted-rtl",
+    "comb-mark-on-chain-first", "comb-mark-on-chain-middle", "comb-mark-on-chain-last",
+    "comb-mark-on-mark-on-chain", "comb-attached-mark-skipped-by-join", "comb-mark-on-chain-of-3-or-more",
+    "comb-ligature-component-mark-then-join", "comb-displaced-glyph-inside-chain",
+    "comb-displaced-base-with-mark-beside-chain", "comb-kerning-after-chain-before-marked-glyph",
+    "comb-kerning-inside-chain-with-marks", "comb-kern-table-with-chain-and-marks", "comb-without-gdef"))
 # ... and families the random programs of record mode must reach (counted by the harness)
 REC_FAMILIES = ("programs_gpos_without_gdef", "programs_gdef_without_glyphclassdef",
                 "programs_mark_coverage_not_gdef_mark", "events_attached_mark_not_gdef_mark",
-                "programs_kern_cross_stream", "programs_kern_vertical")
+                "programs_kern_cross_stream", "programs_kern_vertical",
+                "programs_comb", "programs_comb_rtl_flag", "programs_comb_flag_clear", "programs_comb_with_kerning",
+                "programs_comb_with_displacement", "programs_comb_with_markmark",
+                "events_input_mark_inside_cursive_pair", "events_input_two_marks_after_cursive_glyph",
+                "events_input_chain_of_3_with_mark")
 
 
 # ------------------------------------------------------------------------------------------------
@@ -55,8 +67,10 @@ def _adv(prog, info):
 
 
 def _pos_causes(prog, infos, rtl):
-    """causes that can explain an x / y difference of glyph origins for these infos"""
-    cx, cy = set(), set()
+    """known approximations of allsorts that these infos exercise, per axis: (cx, cy) those of the cursive pass,
+    which displace the FLOW (unattached glyphs, total advance; marks follow their bases rigidly), and (mx, my)
+    those of the mark pass, which displace a mark RELATIVE TO ITS BASE (both repaired in /repo: `fixed:` lines)"""
+    cx, cy, mx, my = set(), set(), set(), set()
     n = len(infos)
     for j, inf in enumerate(infos):
         pl = inf["pl"]
@@ -67,14 +81,14 @@ def _pos_causes(prog, infos, rtl):
             while 0 <= k < n:
                 t = infos[k]["pl"]["t"]
                 if t == "D":
-                    cx.add("mark-on-displaced-base")
-                    cy.add("mark-on-displaced-base")
+                    mx.add("mark-on-displaced-base")
+                    my.add("mark-on-displaced-base")
                     break
                 if t != "M":
                     break
                 k = infos[k]["pl"]["i"]
             if rtl and sum(_adv(prog, infos[q]) for q in range(b + 1, j + 1)) != 0:
-                cx.add("rtl-mark-advance-between")
+                mx.add("rtl-mark-advance-between")
         elif pl["t"] == "C":
             nx = pl["i"]
             between = sum(_adv(prog, infos[q]) for q in range(j + 1, nx))
@@ -91,7 +105,37 @@ def _pos_causes(prog, infos, rtl):
                 is_target = any(o["pl"]["t"] == "C" and o["pl"]["i"] == j for o in infos)
                 if not is_target and pl["bx"] != 0:
                     cx.add("cursive-line-rtl-not-fitted")
-    return cx, cy
+    return cx, cy, mx, my
+
+
+def _root(infos, j):
+    """the glyph a mark finally rests on"""
+    seen = 0
+    while infos[j]["pl"]["t"] == "M" and 0 <= infos[j]["pl"]["i"] < len(infos) and seen <= len(infos):
+        j = infos[j]["pl"]["i"]
+        seen += 1
+    return j
+
+
+def _split_diff(infos, want, got):
+    """which part of the observable differs, per axis: the flow (origins of the glyphs that are not attached marks,
+    total advance) and / or the offset of an attached mark from its base.  Used for naming the mismatch only; that
+    there IS a mismatch was decided by TLC (Canon equality)."""
+    flow, rel = [want["t"] != got["t"], want["v"] != got["v"]], [False, False]
+    n = len(infos)
+    wo, go = want["o"], got["o"]
+    if len(wo) != n or len(go) != n:
+        return [True, True], [False, False]
+    for j in range(n):
+        pl = infos[j]["pl"]
+        for ax in (0, 1):
+            if pl["t"] == "M" and 0 <= pl["i"] < n:
+                b = pl["i"]
+                if wo[j][ax] - wo[b][ax] != go[j][ax] - go[b][ax]:
+                    rel[ax] = True
+            elif wo[j][ax] != go[j][ax]:
+                flow[ax] = True
+    return flow, rel
 
 
 def _family(ident):
@@ -104,15 +148,77 @@ def _pos_keys(prog, ident, stage, infos, want, got):
         return ["%s|error|%s|%s" % (stage, _family(ident), str(got)[:60])]
     dx = want["t"] != got["t"] or any(a[0] != b[0] for a, b in zip(want["o"], got["o"]))
     dy = want["v"] != got["v"] or any(a[1] != b[1] for a, b in zip(want["o"], got["o"]))
-    cx, cy = _pos_causes(prog, infos, rtl)
+    cx, cy, mx, my = _pos_causes(prog, infos, rtl)
+    flow, rel = _split_diff(infos, want, got)
     keys = []
-    for axis, differs, causes in (("x", dx, cx), ("y", dy, cy)):
-        if differs:
-            # a difference on an axis for which the case exercises a known approximation of allsorts is keyed
-            # by that approximation (direction and axis are part of its name where they matter)
-            keys.append("pos|" + "+".join(sorted(causes)) if causes
-                        else "%s|%s|unexplained:%s" % (stage, axis, _family(ident)))
+    for ax, axis, differs, ccauses, mcauses in ((0, "x", dx, cx, mx), (1, "y", dy, cy, my)):
+        if not differs:
+            continue
+        # A difference of the flow is attributed to the known approximation(s) of the cursive pass the case
+        # exercises, a difference of a mark's offset from its base to those of the mark pass (direction and axis
+        # are part of a cause's name where they matter).  What no cause covers is `unexplained`: a combination of
+        # a known cause with an unexplained part has its own key (e.g. a cursive join that is known to be off
+        # along the line AND a mark that is not at base anchor - mark anchor from its base).
+        parts = set()
+        if flow[ax]:
+            parts |= ccauses or {"unexplained-flow"}
+        if rel[ax]:
+            parts |= mcauses or {"unexplained-mark-offset-from-base"}
+        if not parts or all(p.startswith("unexplained-") for p in parts):
+            keys.append("%s|%s|unexplained:%s" % (stage, axis, _family(ident)))
+        else:
+            keys.append("pos|" + "+".join(sorted(parts)))
     return sorted(set(keys))
+
+
+# ---- combinations: cases that stay sensitive although allsorts' cursive pass is approximate -------------------
+def _comb_counters(prog, case, counters):
+    """computed from TLC's expectation only: in how many generated combination cases does a mark rest on a glyph
+    that the cursive join really moves, on an axis / in a direction where none of the known approximations of the
+    cursive pass applies (so that the case is green on a faithful tree and red as soon as the mark is not
+    repositioned with its base)"""
+    counters["cases"] = counters.get("cases", 0) + 1
+    hit = set()
+    for e in case["exp"]:
+        infos = e["infos"]
+        n = len(infos)
+        marks = [j for j in range(n) if infos[j]["pl"]["t"] == "M"]
+        targets = {inf["pl"]["i"] for inf in infos if inf["pl"]["t"] == "C"}
+        for dirn in ("ltr", "rtl"):
+            cx, cy, _, _ = _pos_causes(prog, infos, dirn == "rtl")
+            want = e[dirn]
+            for j in marks:
+                b = _root(infos, j)
+                pl = infos[b]["pl"]
+                in_chain = pl["t"] == "C" or b in targets
+                if not in_chain:
+                    continue
+                where = "first" if b not in targets else ("middle" if pl["t"] == "C" else "last")
+                if want["o"][b][1] != 0 and not cy:
+                    hit.update(("clean_%s_moved_across" % dirn, "clean_mark_on_chain_%s" % where))
+                    if infos[j]["pl"]["i"] != b:
+                        hit.add("clean_mark_on_mark")
+                    if prog["gdef"]["cls"][infos[b]["g"]] == 2:
+                        hit.add("clean_ligature_base")
+                if dirn == "ltr" and pl["t"] == "C" and not cx:
+                    between = sum(_adv(prog, infos[q]) for q in range(b + 1, pl["i"]))
+                    if pl["bx"] - pl["ax"] - between != _adv(prog, infos[b]):
+                        hit.update(("clean_ltr_advance_fitted", "clean_mark_on_chain_%s" % where))
+                        if infos[j]["pl"]["i"] != b:
+                            hit.add("clean_mark_on_mark")
+                        if prog["gdef"]["cls"][infos[b]["g"]] == 2:
+                            hit.add("clean_ligature_base")
+    for h in hit:
+        counters[h] = counters.get(h, 0) + 1
+    if hit:
+        counters["clean_sensitive_cases"] = counters.get("clean_sensitive_cases", 0) + 1
+
+
+# (a mark on the LAST glyph of a chain is moved by the join only when the RIGHT_TO_LEFT flag is clear, where the
+# cursive pass is known to be off: there is no clean case for it)
+COMB_REQUIRED = ("clean_sensitive_cases", "clean_ltr_moved_across", "clean_rtl_moved_across", "clean_ltr_advance_fitted",
+                 "clean_mark_on_chain_first", "clean_mark_on_chain_middle",
+                 "clean_mark_on_mark", "clean_ligature_base")
 
 
 def _all_lookups(prog):
@@ -174,6 +280,7 @@ def run(ctx):
     n_cases, n_tpl = [0], [0]
     samples = []
     planted = []
+    comb_cases = []
     with open(tpl_path, "w") as ft, open(cases_path, "w") as fc:
         def sink(tag, payload):
             if tag == "TPL":
@@ -186,6 +293,8 @@ def run(ctx):
                     samples.append(payload)
                 if not planted and '"t":"M"' in payload:
                     planted.append(payload)
+                if '["comb-' in payload:
+                    comb_cases.append(payload)
         mc = vlib.run_tlc(ctx, "MC_Gpos", cfg, "mc", workers=4, timeout=600 if ctx.quick else 3000, sink=sink)
     ctx.note("MC_Gpos: %d states generated, %d distinct, %d templates, %d cases (%.1fs)" %
              (mc.generated, mc.distinct, n_tpl[0], n_cases[0], mc.wall))
@@ -208,6 +317,13 @@ def run(ctx):
     programs = {}
     for t in vlib.read_ndjson(tpl_path):
         programs[json.dumps(t["id"])] = t["prog"]
+
+    # vacuity of the combination families, from TLC's data alone
+    comb = {}
+    for payload in comb_cases:
+        c = json.loads(payload)
+        _comb_counters(programs[json.dumps(c["id"])], c, comb)
+    ctx.note("combinations: %s" % json.dumps(comb, sort_keys=True))
 
     # spec -> impl
     mism_path = ctx.path("mismatches.ndjson")
@@ -236,7 +352,7 @@ def run(ctx):
         raise vlib.ToolError("binding self-check failed: a corrupted expectation was accepted by the replay")
 
     # impl -> spec
-    n_prog, n_str = (240, 12) if ctx.quick else (4000, 16)
+    n_prog, n_str = (270, 12) if ctx.quick else (4500, 16)
     trace = ctx.path("trace.ndjson")
     rec = vlib.run_harness(binp, ["record", ctx.seed, n_prog, n_str, trace])
     ctx.note("record: %s" % json.dumps(rec))
@@ -301,6 +417,7 @@ def run(ctx):
         "recorded_program_kinds": rec.get("kinds", {}),
         "recorded_families": rec.get("families", {}),
         "vacuity": stats,
+        "combination_cases": comb,
         "tlc_states_generated": mc.generated,
         "binding_selfcheck": "corrupted generated expectation reported by replay; corrupted infos and positions events rejected by Trace_Gpos",
         "exhaustive": True,
@@ -311,6 +428,9 @@ def run(ctx):
               "cases_with_several_conformant_outcomes", "templates_gpos_without_gdef_table") + VAC_TAGS:
         if stats.get(k, 0) == 0:
             raise vlib.ToolError("vacuity: no generated case exercised %s" % k)
+    for k in COMB_REQUIRED:
+        if comb.get(k, 0) == 0:
+            raise vlib.ToolError("vacuity: no generated combination case is %s" % k)
     for k in REC_FAMILIES:
         if rec.get("families", {}).get(k, 0) == 0:
             raise vlib.ToolError("vacuity: no recorded random program/event in family %s" % k)
